@@ -4,6 +4,7 @@ import (
 	"sync"
 
 	"github.com/refraction-networking/uquic/internal/protocol"
+	"github.com/refraction-networking/uquic/internal/verifhook"
 )
 
 var pool sync.Pool
@@ -19,6 +20,7 @@ func init() {
 
 func GetStreamFrame() *StreamFrame {
 	f := pool.Get().(*StreamFrame)
+	verifhook.PoolGet("streamframe", f)
 	return f
 }
 
@@ -29,5 +31,6 @@ func putStreamFrame(f *StreamFrame) {
 	if protocol.ByteCount(cap(f.Data)) != protocol.MaxPacketBufferSize {
 		panic("wire.PutStreamFrame called with packet of wrong size!")
 	}
+	verifhook.PoolPut("streamframe", f, f.Data)
 	pool.Put(f)
 }
